@@ -263,7 +263,8 @@ def run_case(case, ctx, verbose=False):
             if v:
                 return Outcome(v, classes=classes + ["file-replaced-under-live-engine"])
             # every dump taken after a build: rows and dependency ids must resolve in key_names
-            dumps = [x[1] for b in r.events["builds"] for x in b["pre"] if isinstance(x, tuple) and x[0] == "dbdump"]
+            dumps = [b["db"] for b in r.events["builds"] if b.get("db")]
+            dumps += [x[1] for b in r.events["builds"] for x in b["pre"] if isinstance(x, tuple) and x[0] == "dbdump"]
             dumps += [x[1] for x in r.events["trailing"] if isinstance(x, tuple) and x[0] == "dbdump"]
             for d in dumps:
                 if d["errors"]:
